@@ -62,7 +62,7 @@ ARMS = [
 ]
 UNIT = Unit(
     name="exec", uses="group_melvm_axioms",
-    prelude=["core.rs", "raw.rs", "crypto.rs", "melvm_types.rs", "melvm_exec.rs"],
+    prelude=["core.rs", "raw.rs", "crypto.rs", "melvm_types.rs", "melvm_exec.rs", "melvm_conv.rs"],
     lemmas=["sums.rs", "melvm_spec.rs"],
     items=[
         TypeItem(O, "enum", "OpCode"),
@@ -132,5 +132,47 @@ pub broadcast group group_melvm_axioms { axiom_u256_range, axiom_u256_ext, axiom
                               Some(m2) => res is Some && vm_of(*final(self)) == m2, None => res is None })""", "C10"),
                     C("end", "old(self).pc >= old(self).instrs@.len() ==> res is None", "C10"),
                     C("frame", "final(self).instrs == old(self).instrs", "C10")]),
+        Fn(E_, "run_to_end", impl="Executor", home="C10", implicit_props=("C09", "C10", "C04"), attrs=["#[verifier::exec_allows_no_decreases_clause]"],
+           requires=[C("small", "old(self).instrs@.len() <= 0x7fff_ffff_ffff", note="A-PHYS: a program has fewer than 2^47 instructions"),
+                     C("pc", "old(self).pc <= old(self).instrs@.len()")],
+           ensures=[C("runs", "run_result(old(self).instrs@, vm_of(*old(self)), res)", "C10", "C04",
+                      note="partial correctness: termination of the loop is not proved here (the weight bound of C11 is not mechanised)")],
+           injects=[Inject("entry", "let ghost m0 = vm_of(*self); let ghost prog = self.instrs@; let ghost mut n: nat = 0; proof { assert(run_n(prog, m0, 0) == Some(m0)); }"),
+                    Inject("before_tail", "let ghost last = self.stack@; proof { if hits_uncovered(prog, m0) { lemma_uncovered_any(prog, m0, if last.len() > 0 { Some(last[last.len() - 1]) } else { None::<Value> }); } }")],
+           loops=[Loop(0, body_entry="""let ghost m1 = vm_of(*self); let ghost unc = hits_uncovered(prog, m0);
+                           proof { if !unc && !covered(prog[m1.pc]) { assert(match run_n(prog, m0, n) { Some(m) => 0 <= m.pc < prog.len() && !covered(prog[m.pc]), None => false }); }
+                               if hits_uncovered(prog, m0) { lemma_uncovered_any(prog, m0, None::<Value>); } }""",
+                       body_exit="proof { if !hits_uncovered(prog, m0) { n = n + 1; assert(run_n(prog, m0, n) == Some(vm_of(*self))); } }",
+                       invariants=[C("frame", "self.instrs@ == prog && prog.len() <= 0x7fff_ffff_ffff && prog == old(self).instrs@ && m0 == vm_of(*old(self))", "C10"),
+                                   C("reach", "hits_uncovered(prog, m0) || run_n(prog, m0, n) == Some(vm_of(*self))", "C10")]),],
+           ),
+        Fn(E_, "new", impl="Executor", home="C10", implicit_props=("C09", "C10"),
+           ensures=[C("init", "res.instrs == instrs && vm_of(res) == (VM { stack: Seq::<Value>::empty(), heap: heap_init@, pc: 0, loops: Seq::<LoopState>::empty() })", "C10", "C04")]),
+        TypeItem("lib/melvm/src/lib.rs", "struct", "CovenantEnv"),
+        TypeItem("lib/melvm/src/consts.rs", "const", "HADDR_SPENDER_TX"),
+        TypeItem("lib/melvm/src/consts.rs", "const", "HADDR_SPENDER_TXHASH"),
+        TypeItem("lib/melvm/src/consts.rs", "const", "HADDR_PARENT_TXHASH"),
+        TypeItem("lib/melvm/src/consts.rs", "const", "HADDR_PARENT_INDEX"),
+        TypeItem("lib/melvm/src/consts.rs", "const", "HADDR_SELF_HASH"),
+        TypeItem("lib/melvm/src/consts.rs", "const", "HADDR_PARENT_VALUE"),
+        TypeItem("lib/melvm/src/consts.rs", "const", "HADDR_PARENT_DENOM"),
+        TypeItem("lib/melvm/src/consts.rs", "const", "HADDR_PARENT_ADDITIONAL_DATA"),
+        TypeItem("lib/melvm/src/consts.rs", "const", "HADDR_PARENT_HEIGHT"),
+        TypeItem("lib/melvm/src/consts.rs", "const", "HADDR_SPENDER_INDEX"),
+        TypeItem("lib/melvm/src/consts.rs", "const", "HADDR_LAST_HEADER"),
+        Fn(E_, "new_from_env", impl="Executor", home="C04", implicit_props=("C09", "C04", "C10"),
+           ensures=[C("heap", "res.instrs == instrs && vm_of(res) == (VM { stack: Seq::<Value>::empty(), heap: env_heap(tx, env), pc: 0, loops: Seq::<LoopState>::empty() })", "C04", "C10",
+                      note="every field of the covenant environment is placed at its specified heap address; the value conversions themselves are A-VALCONV")]),
+        Raw("use std::sync::Arc;"),
+        TypeItem("lib/melvm/src/lib.rs", "struct", "Covenant", subst=[("(Arc<Vec<OpCode>>)", "(pub Arc<Vec<OpCode>>)")]),
+        Raw("""impl View for Covenant { type V = Seq<OpCode>; open spec fn view(&self) -> Seq<OpCode> { (*self.0)@ } }
+/// A-PHYS: a program has fewer than 2^47 instructions (each OpCode value occupies at least 40 bytes)
+pub broadcast axiom fn axiom_program_len(v: Vec<OpCode>) ensures #[trigger] v@.len() <= 0x7fff_ffff_ffff;
+/// <[T]>::to_vec through Arc<Vec<OpCode>>: a copy of the instruction sequence
+#[verifier::external_body] pub fn arc_to_vec(a: &Arc<Vec<OpCode>>) -> (r: Vec<OpCode>) ensures r@ == (**a)@ { unimplemented!() }"""),
+        Fn("lib/melvm/src/lib.rs", "execute", impl="Covenant", home="C04", implicit_props=("C09", "C04", "C10"), uses="group_melvm_axioms, axiom_program_len",
+           rewrites=[("SUB", "self.0.to_vec()", "arc_to_vec(&self.0)")],
+           ensures=mv_execute()["ensures"] + [C("sem", "run_result(self@, VM { stack: Seq::<Value>::empty(), heap: env_heap(*tx, env), pc: 0, loops: Seq::<LoopState>::empty() }, res)", "C04", "C10",
+                      note="Covenant::execute = the MelVM run (run_result) of this covenant's instructions from the empty stack and the heap holding exactly this spend's environment")]),
     ],
 )
